@@ -320,6 +320,8 @@ PropsF(s) ==
     ELSE Props(s)
 ReqF(s) == IF InlineAllOf(s) THEN Required(s) \cup UNION {Required(s.allOf[i]) : i \in DOMAIN s.allOf} ELSE Required(s)
 
+\* additionalProperties: true (the empty schema) says what its absence says
+HasAP(s) == Has(s, "additionalProperties") /\ DOMAIN s.additionalProperties # {}
 RECURSIVE SchemaDiffs(_, _, _, _)
 SchemaDiffs(a, b0, path, sdefs) ==
   LET b == IF Has(b0, "ref") /\ ~Has(a, "ref") /\ b0.ref \in DOMAIN sdefs THEN sdefs[b0.ref] ELSE b0
@@ -336,8 +338,8 @@ SchemaDiffs(a, b0, path, sdefs) ==
   \cup UNION {SchemaDiffs(PropsF(a)[k], PropsF(b)[k], path \o "." \o k, sdefs) : k \in (DOMAIN PropsF(a)) \cap (DOMAIN PropsF(b))}
   \cup (IF Has(a, "items") # Has(b, "items") THEN {path \o ":items"}
         ELSE IF Has(a, "items") THEN SchemaDiffs(a.items, b.items, path \o "[]", sdefs) ELSE {})
-  \cup (IF Has(a, "additionalProperties") # Has(b, "additionalProperties") THEN {path \o ":additionalProperties"}
-        ELSE IF Has(a, "additionalProperties") THEN SchemaDiffs(a.additionalProperties, b.additionalProperties, path \o "{}", sdefs) ELSE {})
+  \cup (IF HasAP(a) # HasAP(b) THEN {path \o ":additionalProperties"}
+        ELSE IF HasAP(a) THEN SchemaDiffs(a.additionalProperties, b.additionalProperties, path \o "{}", sdefs) ELSE {})
   \cup (IF InlineAllOf(a) \/ InlineAllOf(b) THEN {}
         ELSE IF Has(a, "allOf") # Has(b, "allOf") THEN {path \o ":allOf"}
         ELSE IF ~Has(a, "allOf") THEN {}
